@@ -60,6 +60,17 @@ reg('C19', True,
     'clang 14 AST/CFG of 44 units; user callbacks (validity checker, constraint function) end the traversal; std '
     'library synchronisation primitives trusted',
     'effect analysis over the resolved call graph + lock-set dataflow over clang CFG + frozen who-holds-what table')
-for _p in ['C01', 'C02', 'C03', 'C04', 'C06', 'C07', 'C08', 'C09', 'C10', 'C13', 'C14', 'C15', 'C16',
+reg('C04', True,
+    'Decides for all inputs: the ranking operator of solutions is a strict weak order equal to the documented ranking '
+    '(exhaustive over 108 abstract solutions, all pairs and triples, objective present and absent); the solution set is '
+    're-sorted after every insertion and readers answer from element 0; at all 10 setOptimized sites the meets-objective '
+    'flag is false or isSatisfied of the stored cost (frozen alias table); isCostBetterThan is strict <; 12 frozen '
+    'incumbent-update sites store the new cost only under isCostBetterThan(new, incumbent) with that argument order '
+    '(first-solution / objective-satisfied idioms as reasoned exceptions), resets only outside loops; PathGeometric::cost '
+    'and length are the adjacent-pair folds. Not decided: stored cost vs true cost for planners with deferred '
+    'propagation, admissibility of heuristics, BIT*/LBTRRT incumbent idioms (listed).',
+    'clang 14 AST/CFG of 17 units; the objective\'s virtual cost functions are opaque',
+    'finite-domain abstract evaluation (strict weak order + spec table) + call-site argument agreement + guard shape')
+for _p in ['C01', 'C02', 'C03', 'C06', 'C07', 'C08', 'C09', 'C10', 'C13', 'C14', 'C15', 'C16',
            'C17', 'C20']:
     reg(_p, False, '', '', '', PENDING)
